@@ -18,6 +18,11 @@ use sl::*;
 use std::os::unix::fs::FileExt;
 use std::path::Path;
 
+macro_rules! with_hn {
+    ($h:expr, $f:ident ( $($a:expr),* )) => {
+        match $h { 1 => $f::<1>($($a),*), 8 => $f::<8>($($a),*), 16 => $f::<16>($($a),*), 32 => $f::<32>($($a),*), _ => panic!("unsupported H") }
+    };
+}
 struct Sys<const H: usize> { w: Writer<H>, readers: Vec<Reader<H>>, path: std::path::PathBuf }
 
 fn iter_str<const H: usize>(rd: &mut Reader<H>, start: u64) -> String {
@@ -162,6 +167,65 @@ fn generate<const H: usize>(dir: &Path, rng: &mut Rng, plan: &Plan) -> (String, 
     (format!("h {H} {} {} {}", plan.size, plan.start, ops.join(" ; ")), outs.join(";"))
 }
 
+/// Deterministic layout (sizes from the seed, shape fixed): a record B that straddles a 64 KiB read-ahead window
+/// boundary is read sequentially, so the reader's buffer grows PAST the window end (rounded up to 4 KiB); the
+/// header of a record C inside that cached tail is then replaced through the SAME reader and C is read again
+/// (Sequential, iteration, Random) before anything forces a refill; finally through a reader opened afterwards.
+fn window_tail<const H: usize>(dir: &Path, rng: &mut Rng, k: u64, via_iter: bool, comp_c: bool) -> (String, String) {
+    let w = 65536 * k;
+    let start = *rng.pick(&[0u64, 16, 64]);
+    let size = (w + 40_000) as usize;
+    let mut s = new_sys::<H>(dir, size, start);
+    let mut ops: Vec<String> = vec![];
+    let mut outs: Vec<String> = vec![];
+    let mut step = |s: &mut Sys<H>, op: String| -> String {
+        let toks: Vec<&str> = op.split_whitespace().collect();
+        let o = catch(|| exec(s, &toks)).unwrap_or_else(|| format!("{}=PANIC", toks[0]));
+        ops.push(op.clone()); outs.push(o.clone()); o
+    };
+    let hdr = |rng: &mut Rng| -> String { let v: Vec<u8> = (0..H).map(|_| rng.below(256) as u8).collect(); format!("x{}", hex(&v)) };
+    step(&mut s, "n".into());
+    // fillers up to d bytes before the window boundary
+    let d = 9 + rng.below(1500);
+    let mut off = start;
+    let target = w - d;
+    while off < target {
+        let room = target - off;
+        let total = if room > 40_000 + 2 * (8 + H as u64) { 20_000 + rng.below(20_000) } else { room };
+        if total < 8 + H as u64 { break; }
+        let n = total - 8 - H as u64;
+        let o = step(&mut s, format!("a {} r{}:{n} -", hdr(rng), rng.below(1 << 30)));
+        if !o.starts_with("a=") || o == "a=full" { break; }
+        off += total;
+    }
+    let off_b = off;
+    // B straddles the boundary; its end leaves room for C inside the 4 KiB-rounded tail
+    let mut nb = d + 10 + rng.below(1500);
+    let end_b = |nb: u64| off_b + 8 + H as u64 + nb;
+    while (end_b(nb) - (w - 65536)) % 4096 > 4096 - 600 { nb += 97; }
+    step(&mut s, format!("a {} t{}:{nb} -", hdr(rng), rng.below(1 << 30)));
+    let off_c = end_b(nb);
+    if comp_c { step(&mut s, "c 1".into()); }
+    let nc = if comp_c { 128 + rng.below(120) } else { rng.below(60) };
+    let data_c = format!("t{}:{nc}", rng.below(1 << 30));
+    let stored = if comp_c { format!("x{}", hex(&compress_oracle(dir, &expand(&data_c)))) } else { "-".into() };
+    step(&mut s, format!("a {} {data_c} {stored}", hdr(rng)));
+    if comp_c { step(&mut s, "c 0".into()); }
+    step(&mut s, format!("a {} x{} -", hdr(rng), hex(&[1, 2, 3])));
+    step(&mut s, "s".into());
+    if via_iter { step(&mut s, format!("i 0 {start}")); } else { step(&mut s, format!("r 0 {off_b} 1")); }
+    step(&mut s, format!("p 0 {off_c} {}", hdr(rng)));
+    step(&mut s, format!("r 0 {off_c} 1"));
+    step(&mut s, format!("i 0 {off_b}"));
+    step(&mut s, format!("r 0 {off_c} 0"));
+    step(&mut s, format!("p 0 {off_c} {}", hdr(rng)));
+    step(&mut s, format!("i 0 {off_c}"));
+    step(&mut s, "n".into());
+    step(&mut s, format!("r 1 {off_c} 1"));
+    step(&mut s, "d".into());
+    (format!("h {H} {size} {start} {}", ops.join(" ; ")), outs.join(";"))
+}
+
 fn run_line(dir: &Path, line: &str) -> String {
     let t: Vec<&str> = line.split_whitespace().collect();
     if t.len() < 4 || t[0] != "h" { return "BADCASE".into(); }
@@ -185,7 +249,18 @@ fn main() {
     } else {
         let thorough = a.tier == "thorough";
         let mut rng = Rng::new(a.seed);
-        let n_hist = if thorough { 2400 } else { 320 };
+        // the window-tail layout, a few per run in every tier
+        let n_layout = if thorough { 16 } else { 4 };
+        for i in 0..n_layout {
+            let h = [8usize, 16, 1, 32][i % 4];
+            let (k, via_iter, comp_c) = (1 + (i as u64 / 4) % 2, i % 2 == 1, i % 3 == 2);
+            let mut r2 = rng.fork();
+            match catch(|| with_hn!(h, window_tail(dir.path(), &mut r2, k, via_iter, comp_c))) {
+                Some((c, o)) => out.case(&c, &o),
+                None => out.case(&format!("h {h} 105536 0 n"), "PANIC"),
+            }
+        }
+        let n_hist = if thorough { 2400 } else { 316 };
         for i in 0..n_hist {
             let h = [0usize, 8, 1, 16, 32][i % 5];
             let big = i % 8 == 3;
